@@ -705,7 +705,18 @@ def _from_str(ctx: Ctx) -> None:
            construct="n_bins value")
     from sa.checks.c19 import _parses_into_fresh
     okp = _parses_into_fresh(fs)
-    ctx.ob("D4.2", fs, fs.node, okp,
+    bounded = [c for c in ast.walk(fs.node) if isinstance(c, ast.Call)
+               and ast.unparse(c.func) in ("np.fromstring", "np.fromiter",
+                                           "np.loadtxt")
+               and any(k.arg in ("count", "max_rows") and ast.unparse(
+                   k.value) != "-1" for k in c.keywords)]
+    if bounded:
+        ctx.ob("D4.2", fs, bounded[0], False,
+               f"`{ast.unparse(bounded[0])[:90]}` stops after a fixed "
+               "number of values: a text with more values than the packing "
+               "has cells is cut off silently instead of being rejected by "
+               "the reshape", construct="parse reads the whole text")
+    ctx.ob("D4.2", fs, fs.node, okp or bool(bounded),
            "the text is parsed with the packing's dtype and the writer's "
            "separator into a freshly created packing of the space's shape, "
            "which is what is returned" if okp else
